@@ -84,7 +84,7 @@ fn run_history(seed: &[u8; 64], ops: &[GOp]) -> Vec<u8> {
 fn draw_len(rng: &mut Prng) -> usize {
     match rng.below(8) {
         0 | 1 => rng.range(1, 9),
-        2 | 3 => rng.range(4090, 4102),
+        2 | 3 => rng.range(4085, 4102),
         4 => BUF * rng.range(1, 3),
         5 => rng.range(0, 1),
         _ => rng.range(10, 9000),
@@ -108,6 +108,22 @@ fn check_generator(g: &G1, deep: bool) -> (Vec<(String, String, String)>, BTreeM
     if a != b {
         let i = a.iter().zip(b.iter()).position(|(x, y)| x != y).unwrap_or(0);
         bad.push(("generator/same-seed-different-output".into(), "nondeterministic".into(), format!("two generators with the same seed and the same call history differ from output byte {}", i)));
+    }
+    // (a') the bytes this very history handed out never contain the same 16 bytes twice, at any
+    //      two offsets (word reads skip bytes for alignment, they never go back)
+    if a.len() >= 32 && a.len() <= 192 * 1024 {
+        let mut seen = std::collections::HashMap::with_capacity(a.len());
+        for off in 0..=a.len() - 16 {
+            let k = u128::from_le_bytes(a[off..off + 16].try_into().unwrap());
+            if let Some(prev) = seen.insert(k, off) {
+                bad.push((
+                    "generator/stream-repeats".into(),
+                    "stream-repeats".into(),
+                    format!("the call history {:?}.. received the same 16 bytes twice: at output offsets {} and {}", &g.ops[..g.ops.len().min(6)], prev, off),
+                ));
+                break;
+            }
+        }
     }
     // (b) chunking independence for fill-only histories
     let fill_only = g.ops.iter().all(|o| matches!(o, GOp::Fill(_)));
